@@ -44,4 +44,9 @@ PROPERTIES = {
         explanation="process_name for all strings in SMT string theory; str_to_snake_case by exhaustive bounded enumeration",
         assumptions=["A_snake: assumed contract on str_to_snake_case (regex lookahead is outside the solvers' fragment), bounded stand-in only"],
     ),
+    "C19": dict(
+        modules=["contracts.c19_sources", "contracts.c06_input_types"],
+        explanation="introspection decision chain (complete, loop-free), header resolution; defaults through the C06 contracts",
+        assumptions=["equality of whole generated packages across sources is outside this family (see DESIGN 8)"],
+    ),
 }
